@@ -51,7 +51,11 @@ impl<'a, 'tcx> B<'a, 'tcx> {
                         }
                         _ => f.as_u32().to_string(),
                     };
-                    J::obj(vec![("f", J::s(name)), ("i", J::I(f.as_u32() as i128)), ("ty", J::s(self.cx.ty_str(fty)))])
+                    let mut fv = vec![("f", J::s(name)), ("i", J::I(f.as_u32() as i128)), ("ty", J::s(self.cx.ty_str(fty)))];
+                    if let ty::Adt(adt, _) = pty.ty.kind() {
+                        fv.push(("adt", J::s(self.cx.path(adt.did()))));
+                    }
+                    J::obj(fv)
                 }
                 ProjectionElem::Index(l) => J::obj(vec![("index", J::I(l.as_u32() as i128))]),
                 ProjectionElem::ConstantIndex { offset, min_length, from_end } => J::obj(vec![
